@@ -5233,6 +5233,17 @@ func (a *Agent) TaskDispatch(RequestID uint32, CommandID uint32, Parser *parser.
 									if teamserver.AgentExist(AgentHdr.AgentID) {
 
 										DemonInfo = teamserver.AgentInstance(AgentHdr.AgentID)
+
+										// an agent can't be linked below itself or below one of its own pivots
+										for Ancestor := a; Ancestor != nil; Ancestor = Ancestor.Pivots.Parent {
+											if Ancestor == DemonInfo {
+												Message["Type"] = "Error"
+												Message["Message"] = "[SMB] Failed to connect: agent " + DemonInfo.NameID + " is a parent of this agent"
+												teamserver.AgentConsole(a.NameID, HAVOC_CONSOLE_MESSAGE, Message)
+												return
+											}
+										}
+
 										Message["MiscType"] = "reconnect"
 										Message["MiscData"] = fmt.Sprintf("%v;%x", a.NameID, AgentHdr.AgentID)
 
